@@ -847,7 +847,14 @@ func eqnilV(t types.Type, x, y value) value {
 				return x == y
 			}
 		case []value:
+			if _, ok := y.(symBytes); ok {
+				return false
+			}
 			return (x != nil) == (y.([]value) != nil)
+		case symBytes:
+			if ys, ok := y.([]value); ok {
+				return ys != nil && false
+			}
 		}
 		panic(fmt.Sprintf("eqnil(%s): illegal dynamic type: %T", t, x))
 	}
@@ -1022,6 +1029,22 @@ func callBuiltin(caller *frame, fn *ssa.Builtin, args []value) value {
 		}
 		return n
 
+	case "clear":
+		switch x := args[0].(type) {
+		case *omap:
+			if x != nil {
+				x.keys, x.vals = nil, nil
+			}
+		case []value:
+			et := fn.Type().(*types.Signature).Params().At(0).Type().Underlying().(*types.Slice).Elem()
+			for i := range x {
+				x[i] = zero(et)
+			}
+		default:
+			panic(fmt.Sprintf("clear: illegal operand: %T", x))
+		}
+		return nil
+
 	case "close": // close(chan T)
 		chanClose(args[0].(*chanv))
 		return nil
@@ -1071,6 +1094,12 @@ func callBuiltin(caller *frame, fn *ssa.Builtin, args []value) value {
 			return symInt{"(str.len " + x.t + ")", types.Int}
 		case symAtom:
 			return 7
+		case symBytes:
+			t := bytesText(x)
+			if c, ok := t.(string); ok {
+				return len(c)
+			}
+			return symInt{"(str.len " + strTerm(t) + ")", types.Int}
 		default:
 			panic(fmt.Sprintf("len: illegal operand: %T", x))
 		}
@@ -1302,6 +1331,12 @@ func conv(t_dst, t_src types.Type, x value) value {
 		// []byte or []rune -> string
 		switch ut_src.Elem().Underlying().(*types.Basic).Kind() {
 		case types.Byte:
+			if sb, ok := x.(symBytes); ok {
+				if _, toSlice := ut_dst.(*types.Slice); toSlice {
+					return sb
+				}
+				return bytesText(sb)
+			}
 			x := x.([]value)
 			b := make([]byte, 0, len(x))
 			for i := range x {
